@@ -23,15 +23,19 @@ Definition spec_choice (fl : rflags) (h : hir) (mem : list N) (out : list (N * N
 Definition spec_matches (fl : rflags) (h : hir) (mem : list N) (out : list (N * N)) : bool :=
   spec_members fl h mem out && spec_choice fl h mem out.
 
-(* known finding "length by arrival": when a string has literals of three or more lengths, the match kept
-   at an offset is the one whose atom is met first by the Aho-Corasick pass (then literal order), which can
-   be a middle length: neither the shortest, nor the leftmost-first, nor the longest.  Class: literals of
-   >= 3 distinct lengths and an offset of the input with >= 3 member lengths; it only excuses the
-   length-choice clause (the first two clauses must hold). *)
+(* known finding "length by arrival": the match kept at an offset is the one produced by the first literal
+   hit that reaches this offset in the Aho-Corasick pass (atom end, then atom length, then literal order);
+   when three or more member lengths exist there it can be a middle one: neither the shortest, nor the
+   leftmost-first, nor the longest.  Class: a string scanned through the AC pass and an offset of the
+   input with >= 3 member lengths (with fewer the clause cannot fail); it only excuses the length-choice
+   clause (the first two clauses must hold), and the runner only applies it when the implementation's
+   list equals the model's, i.e. when the length is the one arrival order predicts. *)
 Definition distinct_lengths (lits : list (list N)) : N := nlen (dedup (map (fun l : list N => nlen l) lits)).
 Definition kf_len_arrival (d : sdesc) (lens_at : N -> list N) (mem : list N) : bool :=
-  (3 <=? distinct_lengths (s_lits d))
-  && existsb (fun o => 3 <=? nlen (dedup (lens_at o))) (iota 0 (nlen mem)).
+  match s_kind d with
+  | KRaw => false
+  | _ => existsb (fun o => 3 <=? nlen (dedup (lens_at o))) (iota 0 (nlen mem))
+  end.
 
 (* rs: per input (corr, spec, known-finding class of the input, 0 = none).  The case is in a known
    class only if every input that fails the spec is; the class reported is the largest one met. *)
